@@ -127,6 +127,7 @@ impl<'l> PktParser<'l> {
     fn get_domain_into(
         &mut self,
         domainv: &mut Vec<dnspkt::Label>,
+        namelen: &mut usize,
         depth: i32,
     ) -> Result<(), String> {
         loop {
@@ -138,6 +139,12 @@ impl<'l> PktParser<'l> {
                 }
                 p if p & 0b1100_0000 == 0 => {
                     // Uncompressed label
+                    // A name is at most 255 octets, counting the length octets and the
+                    // terminating zero (RFC 1035 section 2.3.4).
+                    *namelen += prefix as usize + 1;
+                    if *namelen > 254 {
+                        return Err("Domain name too long".into());
+                    }
                     domainv.push(dnspkt::Label::from(self.get_bytes(prefix as usize)?));
                 }
                 offset_high if offset_high & 0b1100_0000 == 0b1100_0000 => {
@@ -150,7 +157,7 @@ impl<'l> PktParser<'l> {
                         (((offset_high & !0b1100_0000) as usize) << 8) | (offset_low as usize);
                     let saved_offset = self.offset;
                     self.offset = offset;
-                    let ret = self.get_domain_into(domainv, depth + 1);
+                    let ret = self.get_domain_into(domainv, namelen, depth + 1);
                     self.offset = saved_offset;
                     return ret;
                 }
@@ -161,7 +168,8 @@ impl<'l> PktParser<'l> {
 
     pub fn get_domain(&mut self) -> Result<dnspkt::Domain, String> {
         let mut domainv = Vec::new();
-        self.get_domain_into(&mut domainv, 1)
+        let mut namelen = 0;
+        self.get_domain_into(&mut domainv, &mut namelen, 1)
             .map(|_| dnspkt::Domain::from(domainv))
     }
 
